@@ -48,7 +48,15 @@ pub fn check_bfs<D: Order + OutNeighbors + Clone>(g: &D, name: &str, m: &UModel,
         crate::props::c02::clone_consistency(&format!("Bfs<{name}>"), || Bfs::new(g, sources.iter().copied()), seq.len())?;
         crate::props::c02::clone_consistency(&format!("BfsDist<{name}>"), || BfsDist::new(g, sources.iter().copied()), items.len())?;
     }
+    // the same sources through an iterator with an inexact size hint
+    let lazy = || sources.iter().copied().filter(|_| true);
+    let seq_l: Vec<usize> = Bfs::new(g, lazy()).collect();
+    ensure!(seq_l == seq, "Bfs<{name}>: sources passed through `filter` give {seq_l:?}, passed directly {seq:?}");
+    let items_l: Vec<(usize, usize)> = BfsDist::new(g, lazy()).collect();
+    ensure!(items_l == items, "BfsDist<{name}>: sources passed through `filter` give {items_l:?}, passed directly {items:?}");
+    let dist_l = BfsDist::new(g, lazy()).distances();
     let dist = BfsDist::new(g, sources.iter().copied()).distances();
+    ensure!(dist_l == dist, "BfsDist<{name}>::distances(): sources passed through `filter` give {dist_l:?}, passed directly {dist:?}");
     ensure!(dist.len() == n, "BfsDist<{name}>::distances() has length {} for order {n}", dist.len());
     for v in 0..n {
         match hops.get(&v) {
